@@ -37,6 +37,10 @@ type aobj struct {
 	decl    *funcInfo
 	recv    aval // bound receiver of a method value
 	root    bool // the shared instance an entry point runs on
+	// cache != "": the object was handed out by an informer cache (a Lister / Indexer / Store method): it is the cache's own
+	// object, shared with every other reader and with the informer itself, and must never be written (client-go contract:
+	// DeepCopy before modifying)
+	cache string
 }
 
 type aval []*aobj
@@ -65,6 +69,14 @@ type held struct {
 	id    string
 	owner *aobj
 	mode  byte // 'W' or 'R'
+}
+
+// cacheWrite: a store through an object handed out by an informer cache
+type cacheWrite struct {
+	What string `json:"what"`
+	From string `json:"from"`
+	Pos  string `json:"pos"`
+	Via  string `json:"via"`
 }
 
 type access struct {
@@ -108,6 +120,7 @@ type walker struct {
 	stack    []string
 	cond     int
 	out      []access
+	cacheW   []cacheWrite
 	seen     map[string]bool
 	diags    []string
 	nextID   int
@@ -232,6 +245,7 @@ func (w *walker) getField(o *aobj, strct, f string, ft types.Type) aval {
 	}
 	c := w.newObj(o.fresh, trackedStruct(ft))
 	c.parent = o
+	c.cache = o.cache
 	if strct != "" {
 		if _, ok := w.prog.locs[strct+"."+f]; ok {
 			c.tag = w.contentTag(strct + "." + f)
@@ -247,6 +261,7 @@ func (w *walker) getElems(o *aobj, et types.Type) aval {
 		if o.unknown == nil {
 			u := w.newObj(false, trackedStruct(et))
 			u.parent = o
+			u.cache = o.cache
 			if o.tag != "" {
 				u.tag = w.contentTag(o.tag)
 			}
@@ -329,6 +344,21 @@ func (w *walker) record(o *aobj, loc string, write bool, pos token.Pos) {
 	}
 	w.seen[k] = true
 	w.out = append(w.out, a)
+}
+
+// noteCacheWrite: a field / element / whole-value store through an informer-cache object
+func (w *walker) noteCacheWrite(v aval, what string, pos token.Pos) {
+	for _, o := range v {
+		if o.cache == "" || o.fresh {
+			continue
+		}
+		k := "cachewrite" + what + w.position(pos)
+		if w.seen[k] {
+			continue
+		}
+		w.seen[k] = true
+		w.cacheW = append(w.cacheW, cacheWrite{What: what, From: o.cache, Pos: w.position(pos), Via: strings.Join(w.stack, " > ")})
+	}
 }
 
 // hasProvenance: the object is the entry point's instance or was reached through it / through a tracked table
@@ -784,6 +814,7 @@ func (w *walker) store(lhs ast.Expr, v aval, pos token.Pos) {
 			base = nb
 		}
 		f := x.Sel.Name
+		w.noteCacheWrite(base, "field "+f, x.Sel.Pos())
 		for _, o := range base {
 			tag := ""
 			if strct != "" {
@@ -814,6 +845,7 @@ func (w *walker) store(lhs ast.Expr, v aval, pos token.Pos) {
 		base := w.eval(x.X)
 		w.eval(x.Index)
 		w.content(base, true, x.Pos())
+		w.noteCacheWrite(base, "element", x.Pos())
 		for _, o := range base {
 			if !o.fresh {
 				et := ""
@@ -827,6 +859,7 @@ func (w *walker) store(lhs ast.Expr, v aval, pos token.Pos) {
 	case *ast.StarExpr:
 		base := w.eval(x.X)
 		w.wholeStruct(base, w.typeOf(x), true, x.Pos())
+		w.noteCacheWrite(base, "whole value", x.Pos())
 		for _, o := range base {
 			for _, s := range v {
 				for f, fv := range s.fields {
@@ -991,6 +1024,9 @@ func (w *walker) call(c *ast.CallExpr) []aval {
 	if hasRecv {
 		// a method of a type we do not see, applied to tracked contents (sets.String.Has, ...)
 		w.deepRead(recv, mutatorNames[name] && w.recvIsExternal(fn), c.Pos(), 0, vis)
+		if mutatorNames[name] && w.recvIsExternal(fn) {
+			w.noteCacheWrite(recv, "method "+name, c.Pos())
+		}
 	}
 	for i, a := range args {
 		w.deepRead(a, false, c.Args[i].Pos(), 0, vis)
@@ -1023,8 +1059,37 @@ func (w *walker) call(c *ast.CallExpr) []aval {
 			t = w.typeOf(c)
 		}
 		res[i] = aval{w.newObj(false, trackedStruct(t))}
+		if from := w.cacheSource(c, fn); from != "" {
+			res[i][0].cache = from
+		}
 	}
 	return res
+}
+
+// cacheSource: the call hands out objects of an informer cache - Get / List / ByIndex / GetByKey / ... of a type called
+// ...Lister, ...NamespaceLister, Indexer or Store (client-go listers and the generated ones)
+func (w *walker) cacheSource(c *ast.CallExpr, fn *types.Func) string {
+	if fn == nil {
+		return ""
+	}
+	switch fn.Name() {
+	case "Get", "List", "ByIndex", "GetByKey", "ListKeys", "Index":
+	default:
+		return ""
+	}
+	f, ok := ast.Unparen(c.Fun).(*ast.SelectorExpr)
+	if !ok {
+		return ""
+	}
+	sel := w.pkg.TypesInfo.Selections[f]
+	if sel == nil || sel.Kind() != types.MethodVal {
+		return ""
+	}
+	n := namedName(sel.Recv())
+	if strings.HasSuffix(n, "Lister") || n == "Indexer" || n == "Store" {
+		return n + "." + fn.Name()
+	}
+	return ""
 }
 
 func (w *walker) recvIsExternal(fn *types.Func) bool {
